@@ -288,3 +288,58 @@ func VerifC18Update() {
 
 // VerifFakeNode exposes the recording node to harnesses of other packages.
 func VerifFakeNode() ethnode.EthNode { return &verifNode{ua: ethnode.UserAgent{Kind: ethnode.Geth}} }
+
+// VerifC18Started: the keep-alive rounds as the running agent performs them:
+// the one Start itself sends right after registering, then one per tick. In
+// every round - the first included - a shortfall is requested exactly once,
+// with exactly the missing number and the agent's own node kind iff it is a
+// light client, and the node connects to every returned host.
+func VerifC18Started() {
+	node := &verifNode{}
+	node.ua = ethnode.UserAgent{Kind: []ethnode.NodeKind{ethnode.Geth, ethnode.Parity}[verifapi.Choose("kind", 2)], IsFullNode: verifapi.Bool("full")}
+	script := &verifPoolScript{update: &pool.UpdateResponse{}, peerResp: &pool.PeerResponse{}}
+	nActive := verifapi.Choose("active", 3)
+	for i := 0; i < nActive; i++ {
+		script.update.ActivePeers = append(script.update.ActivePeers, fmt.Sprintf("enode://%s@192.0.2.%d:30303", verifapi.NodeID(1+i), 1+i))
+	}
+	nPeerHosts := verifapi.Choose("peerhosts", 3)
+	for i := 0; i < nPeerHosts; i++ {
+		script.peerResp.Peers = append(script.peerResp.Peers, store.Node{ID: store.NodeID(verifapi.NodeID(4)), URI: fmt.Sprintf("enode://%s@192.0.2.%d:30303", verifapi.NodeID(4), 10+i)})
+	}
+	a := &Agent{EthNode: node, NumHosts: verifapi.Choose("numhosts", 4)}
+	wantKind := ""
+	if !node.ua.IsFullNode {
+		wantKind = node.ua.Kind.String()
+	}
+	need := a.NumHosts - nActive
+	reqs, conns := 0, 0
+	check := func() {
+		if need > 0 {
+			verifapi.Assert(len(script.peerReqs) == reqs+1, "c18.shortfall-requested-once")
+			if len(script.peerReqs) == reqs+1 {
+				verifapi.Assert(script.peerReqs[reqs].Num == need, "c18.requests-exactly-the-shortfall")
+				verifapi.Assert(script.peerReqs[reqs].Kind == wantKind, "c18.kind-is-own-kind-iff-light")
+			}
+			verifapi.Assert(len(node.connected) == conns+nPeerHosts, "c18.connects-to-every-returned-host")
+		} else {
+			verifapi.Assert(len(script.peerReqs) == reqs, "c18.no-request-without-shortfall")
+			verifapi.Assert(len(node.connected) == conns, "c18.no-connect-without-request")
+		}
+		reqs, conns = len(script.peerReqs), len(node.connected)
+	}
+	err := a.Start(script)
+	verifapi.Quiesce()
+	verifapi.Assert(err == nil, "c20.start-succeeds")
+	verifapi.Assert(script.connects == 1 && script.updates == 1, "c20.start-registers-and-sends-first-keepalive")
+	check()
+	for t := 0; t < verifapi.Param("ticks", 1); t++ {
+		before := script.updates
+		ok := verifapi.FireTicker(verifapi.Tickers() - 1)
+		verifapi.Quiesce()
+		verifapi.Assert(ok && script.updates == before+1, "c20.one-keepalive-per-tick")
+		check()
+	}
+	verifapi.Reach("c18.started")
+	a.Stop()
+	verifapi.Quiesce()
+}
